@@ -232,6 +232,13 @@ def _worker(items, base):
                                               "title": "subroutine parameter %s %s an argument of type %s although assignable=%s" % (
                                                   b, "accepts" if acc else "rejects", a, asg),
                                               "a": str(a), "b": str(b), "ia": i, "ib": j, "features": {"why": "callsite"}})
+                accw = call_site_accepts(a, b, warm=True)
+                cnt["call_sites"] = cnt.get("call_sites", 0) + 1
+                if accw is not None and accw != asg:
+                    out["violations"].append({"driver": "callsite", "size": 1,
+                                              "title": "subroutine parameter %s, after a call with a %s value, %s an argument of type %s although assignable=%s" % (
+                                                  b, b, "accepts" if accw else "rejects", a, asg),
+                                              "a": str(a), "b": str(b), "ia": i, "ib": j, "features": {"why": "callsite-warm"}})
                 if norm(a)[0] != "ref" and norm(b)[0] != "ref":
                     acc2 = method_call_accepts(a, b)
                     cnt["call_sites"] = cnt.get("call_sites", 0) + 1
@@ -285,8 +292,9 @@ def _worker(items, base):
     return out
 
 
-def call_site_accepts(a, b):
-    """does a subroutine whose parameter is annotated with b accept a value of type a?"""
+def call_site_accepts(a, b, warm=False):
+    """does a subroutine whose parameter is annotated with b accept a value of type a?
+    warm: the SAME subroutine object was called with a value of exactly type b before (a non-initial state)"""
     try:
         ann = b.annotation_type()
         inst = a.new_instance()
@@ -298,6 +306,11 @@ def call_site_accepts(a, b):
     f.__annotations__ = {"x": ann, "return": pt.Expr}
     try:
         sub = pt.Subroutine(pt.TealType.none)(f)
+        if warm:
+            try:
+                sub(b.new_instance())
+            except Exception:
+                return None
         sub(inst)
         return True
     except (pt.TealInputError, pt.TealTypeError):
